@@ -384,6 +384,61 @@ def x9(ctx, rid):
     c08.d8(ctx, rid)
 
 
+MUTATORS = ('replace', 'take', 'insert', 'push', 'push_back', 'clear', 'remove', 'pop', 'truncate', 'extend', 'get_or_insert_with', 'retain', 'swap', 'set', 'store', 'append', 'drain', 'resize')
+
+
+def x10(ctx, rid):
+    """a guarded record is never left half-updated by a dropped future: in a client-cancellable body, while one exclusive guard
+    is held, two different fields of the guarded value are not written on the two sides of a real suspension point (a cache
+    tag stored before the awaited read, the data after it: a future dropped at the read leaves a tag that vouches for stale or
+    empty data, and every later lookup of that block is a `hit`)"""
+    prog = ctx.prog
+    cc, roots = client_cancellable(prog)
+    n = 0
+    pairs = 0
+    for f in prog.fns.values():
+        if not f.is_coroutine or (f.id not in cc and f.root not in cc):
+            continue
+        guards = {l for l, ty in enumerate(f.locals) if core.guard_class(ty) and core.guard_class(ty)[1] in ('W', 'U')}
+        if not guards:
+            continue
+        writes = []     # (bb, guard local, field)
+        for i, b in enumerate(f.blocks):
+            if b['c'] or i not in f.reachable():
+                continue
+            for st in b['s']:
+                if st['k'] != 'a' or not st['d'][1]:
+                    continue
+                root = core.access_root(f, st['d'][0])
+                flds = [x for x in core.place_fields(st['d']) if x and not x.isdigit()]
+                if root in guards and flds:
+                    writes.append((i, root, flds[0]))
+        for c in f.calls:
+            if c.bb not in f.reachable() or c.name not in MUTATORS or not c.args or op_local(c.args[0]) is None:
+                continue
+            l = op_local(c.args[0])
+            if not f.locals[l]['s'].startswith('&mut'):
+                continue
+            root = core.access_root(f, l)
+            flds = [x for x in prims.field_of_receiver(f, c) if x and not x.isdigit()]
+            if root in guards and flds:
+                writes.append((c.bb, root, flds[0]))
+        if not writes:
+            continue
+        n += 1
+        ry = core.real_yields(prog, f)
+        for (b1, g1, f1) in writes:
+            after = f.reach_from(f.after(b1))
+            for (b2, g2, f2) in writes:
+                if g1 != g2 or f1 == f2 or b2 not in after:
+                    continue
+                between = [y for y in ry if y in after and b2 in f.reach_from([y]) and y != b1]
+                if between:
+                    pairs += 1
+                    ctx.bad(rid, 'guarded-update-not-split|%s|%s-%s' % (f.root, f1, f2), f.where(b1), 'field `%s` of a value held under an exclusive guard is written before a suspension point (%s) and field `%s` after it: a client that drops the future in between releases the guard with a half-updated value that later operations trust' % (f1, f.where(between[0]), f2))
+    ctx.ok(rid, 'scan', '', '%d client-cancellable bodies write fields through an exclusive guard; %d field pairs split by a suspension point' % (n, pairs), nontrivial=False, queries=max(1, n))
+
+
 RULES = [
     Rule('C14.X1', 'reservation of a file offset and the OS write consuming it lie in non-coroutine bodies run by a blocking runner', x1, 4),
     Rule('C14.X2', 'no suspension point between the completed record append and its index push', x2, 2),
@@ -393,5 +448,6 @@ RULES = [
     Rule('C14.X7', 'no shared-collection registration is undone by a plain statement after a suspension point in a client-cancellable body', x7, 1),
     Rule('C14.X8', 'in a running session an index is rebuilt from the blob file only on the Err of loading the index file', x8, 1),
     Rule('C14.X9', 'every WritableDataCreator builds its result from the offset reserved inside the non-cancellable append closure (C08.D8 instances)', x9, 1),
+    Rule('C14.X10', 'no two fields of a value held under one exclusive guard are written on the two sides of a suspension point in a client-cancellable body', x10, 1),
     Rule('C14.X4', 'no RAII guard whose Drop undoes a counter reservation is live across a suspension point of a client-cancellable future', x4, 1),
 ]
